@@ -37,8 +37,8 @@ CLAIMS = {
     "C10": ("rxvc obligations on the 24 shipped field patterns (captures, 276 pairwise disjointness queries, ground facts on converters/defaults) + pyvc VCs of Metadata.from_chart_lines (closures inlined, scan loop invariant)",
             "Each field decoded from its first matching line with quotes stripped / int / enum member; absent optional fields take the documented defaults; absent Resolution raises MissingRequiredField; no line can feed two fields (disjoint languages).",
             "C10"),
-    "C14": ("pyvc VCs of parse_data_from_chart_lines for the three kind tuples (ghost source/position arrays: ordered complete filter-map, conservation) + rxvc pairwise disjointness",
-            "Every line contributes one datum to the first kind that matches or one warning; conservation events + warnings = lines; within sync and instrument sections no string is claimed by two kinds. The 'moving unparsable lines changes nothing' clause follows from the filter-map characterisation (the filter-map algebra step is not re-proved mechanically).",
+    "C14": ("pyvc VCs of parse_data_from_chart_lines for the three kind tuples (ghost source/position arrays: ordered complete filter-map, conservation) + SMT lemma L4 over that postcondition (insertion of an unparsable line, induction on the source index) + the framing units of Chart.from_file (each parser gets exactly its body) + rxvc pairwise disjointness",
+            "Every line contributes one datum to the first kind that matches or one warning; conservation events + warnings = lines; within sync and instrument sections no string is claimed by two kinds. The 'inserting / deleting / moving unparsable lines changes nothing' clause is lemma L4, mechanised over the dispatcher's postcondition texts for two runs (per kind: induction step, equal lengths, equal data; one more warning); only the induction principle itself and 'a move is a deletion followed by an insertion' are paper steps. File-level: the partition and from_file proof groups show that each section parser is given exactly its body.",
             "C14"),
     "C11": ("pyvc VCs (_index_of_proximal_event loop, timestamp_at_tick, every constructor, builders)",
             "Two-sided contract of the query (same result for every admissible hint, ValueError beyond the governing event, index = last tempo event at or before the tick); every constructor stores TS(be,tick) or raises ValueError for ANY previous event / hint, with no sortedness assumption on body lines.",
